@@ -448,6 +448,17 @@ func (e *Analysis[S]) runBlock(fc *FlowCtx[S], b *cfg.Block, st fstate[S], ftype
 			}
 			lit, _ := unparen(call.Args[w.ParamIdx]).(*ast.FuncLit)
 			if lit == nil {
+				// A declared function or method value handed over as the callback
+				// (ref.safelyGlobal(ref.removeFromParent)) is analysed like a literal.
+				if e.Inline != nil {
+					arg := unparen(call.Args[w.ParamIdx])
+					syn := &ast.CallExpr{Fun: arg, Lparen: arg.End(), Rparen: arg.End()}
+					if decl := e.Inline(syn, fc); decl != nil {
+						if sp := e.inlineBody(fc, &st, call, w, decl, decl, syn); sp != nil {
+							boundCall, boundSplit = call, sp
+						}
+					}
+				}
 				continue
 			}
 			sp := e.inline(fc, &st, call, w, lit)
@@ -566,7 +577,17 @@ func wrapperCallsIn(n ast.Node) []*ast.CallExpr {
 
 // inline analyses a literal passed to a wrapper; st becomes the state after the call.
 func (e *Analysis[S]) inline(fc *FlowCtx[S], st *fstate[S], call *ast.CallExpr, w *Wrapper, lit *ast.FuncLit) *split[S] {
-	sub := &FlowCtx[S]{A: e, Fn: lit, Parent: fc, Call: call, W: w}
+	return e.inlineBody(fc, st, call, w, lit, nil, nil)
+}
+
+// inlineBody analyses the callback of a wrapper call at the call: a function literal, or (inl
+// non-nil) the body of a declared function that was handed over by name; syn is then the
+// synthetic call "callback()" through which the client binds the callee's receiver.
+func (e *Analysis[S]) inlineBody(fc *FlowCtx[S], st *fstate[S], call *ast.CallExpr, w *Wrapper, fn ast.Node, inl *ast.FuncDecl, syn *ast.CallExpr) *split[S] {
+	sub := &FlowCtx[S]{A: e, Fn: fn, Parent: fc, Call: call, W: w}
+	if inl != nil {
+		sub.Inl, sub.Call = inl, syn
+	}
 	runOnce := func(from fstate[S]) (nilOut, nonNilOut, anyOut fstate[S]) {
 		entry := e.copyState(from)
 		entry.splits = nil
@@ -574,9 +595,15 @@ func (e *Analysis[S]) inline(fc *FlowCtx[S], st *fstate[S], call *ast.CallExpr, 
 			fc.Nil = entry.nils
 			entry.s = e.WrapEnter(entry.s, call, w, fc)
 		}
+		if inl != nil && e.InlEnter != nil {
+			entry.s = e.InlEnter(entry.s, syn, sub, fc)
+		}
 		exits := e.solve(sub, entry, fc.final)
 		for _, ex := range exits {
 			x := e.copyState(ex.st)
+			if inl != nil && e.InlExit != nil {
+				x.s = e.InlExit(x.s, syn, sub, fc)
+			}
 			// Facts about the literal's own locals do not survive; nil-ness of captured
 			// variables does (conservatively: keep the map, objects are distinct anyway).
 			if e.WrapExit != nil {
